@@ -204,3 +204,136 @@ pub const COMMITTED: &[(&str, &[(&str, &str)])] = &[
     ("grpc.reflection.v1.ServerReflection", &[("ServerReflectionInfo", "streaming")]),
     ("grpc.reflection.v1alpha.ServerReflection", &[("ServerReflectionInfo", "streaming")]),
 ];
+
+// =====================================================================================
+// C10 (added): generated servers AND clients of services whose Rust type name (Service::name())
+// differs from the proto identifier (Service::identifier()); see build.rs `id_fixture`.
+// Everything below is hand-written from the proto spelling - nothing is computed from the
+// generator's own helpers.
+pub mod id0 {
+    include!(concat!(env!("OUT_DIR"), "/id_0.rs"));
+}
+pub mod id1 {
+    include!(concat!(env!("OUT_DIR"), "/id_1.rs"));
+}
+pub mod id2 {
+    include!(concat!(env!("OUT_DIR"), "/id_2.rs"));
+}
+pub mod id3 {
+    include!(concat!(env!("OUT_DIR"), "/id_3.rs"));
+}
+pub mod id4 {
+    include!(concat!(env!("OUT_DIR"), "/id_4.rs"));
+}
+pub mod id5 {
+    include!(concat!(env!("OUT_DIR"), "/id_5.rs"));
+}
+
+/// One service of the identifier fixture, as the .proto (not the generator) spells it.
+pub struct IdSvc {
+    /// the name the service must be routed under: `<package>.<identifier>`, the package only if
+    /// the code was generated with emit_package(true) and the package is not empty
+    pub route: &'static str,
+    /// Service::name(): the Rust type name (trait, XxxServer, xxx_server module)
+    pub rust_name: &'static str,
+    pub package: &'static str,
+    /// Service::identifier(): the proto service name
+    pub ident: &'static str,
+    pub emit_package: bool,
+    /// (Method::name() = the Rust fn, Method::identifier() = the proto method name, shape)
+    pub methods: &'static [(&'static str, &'static str, &'static str)],
+}
+pub const ID_FIXTURE: &[IdSvc] = &[
+    IdSvc { route: "pkg.HTTPEcho", rust_name: "HttpEcho", package: "pkg", ident: "HTTPEcho", emit_package: true,
+            methods: &[("ping", "Ping", "unary"), ("get_url", "GetURL", "unary"), ("stream_v2", "Stream_V2", "server_streaming")] },
+    IdSvc { route: "pkg.Echo_V2", rust_name: "EchoV2", package: "pkg", ident: "Echo_V2", emit_package: true,
+            methods: &[("echo", "echo", "unary"), ("echo_all", "EchoAll", "streaming")] },
+    IdSvc { route: "greeter", rust_name: "Greeter", package: "", ident: "greeter", emit_package: true,
+            methods: &[("say_hello", "SayHello", "unary"), ("say_hello_again", "sayHelloAgain", "client_streaming")] },
+    IdSvc { route: "HTTPEcho", rust_name: "HttpEcho", package: "hidden.pkg", ident: "HTTPEcho", emit_package: false,
+            methods: &[("ping", "Ping", "unary")] },
+    IdSvc { route: "pkg.HttpEcho", rust_name: "HttpEcho", package: "pkg", ident: "HttpEcho", emit_package: true,
+            methods: &[("ping", "Ping", "unary"), ("only_here", "OnlyHere", "unary")] },
+    IdSvc { route: "Greeter", rust_name: "Greeter", package: "hidden.pkg", ident: "Greeter", emit_package: false,
+            methods: &[("say_hello", "SayHello", "unary")] },
+];
+
+#[tonic::async_trait]
+impl id0::http_echo_server::HttpEcho for Rec {
+    async fn ping(&self, _r: Request<Msg>) -> Result<Response<Msg>, Status> {
+        self.hit("pkg.HTTPEcho", "Ping", "unary");
+        Ok(Response::new(Msg(b"r".to_vec())))
+    }
+    async fn get_url(&self, _r: Request<Msg>) -> Result<Response<Msg>, Status> {
+        self.hit("pkg.HTTPEcho", "GetURL", "unary");
+        Ok(Response::new(Msg(b"r".to_vec())))
+    }
+    type Stream_V2Stream = MsgStream;
+    async fn stream_v2(&self, _r: Request<Msg>) -> Result<Response<MsgStream>, Status> {
+        self.hit("pkg.HTTPEcho", "Stream_V2", "server_streaming");
+        Ok(Response::new(one()))
+    }
+}
+#[tonic::async_trait]
+impl id1::echo_v2_server::EchoV2 for Rec {
+    async fn echo(&self, _r: Request<Msg>) -> Result<Response<Msg>, Status> {
+        self.hit("pkg.Echo_V2", "echo", "unary");
+        Ok(Response::new(Msg(b"r".to_vec())))
+    }
+    type EchoAllStream = MsgStream;
+    async fn echo_all(&self, _r: Request<Streaming<Msg>>) -> Result<Response<MsgStream>, Status> {
+        self.hit("pkg.Echo_V2", "EchoAll", "streaming");
+        Ok(Response::new(one()))
+    }
+}
+#[tonic::async_trait]
+impl id2::greeter_server::Greeter for Rec {
+    async fn say_hello(&self, _r: Request<Msg>) -> Result<Response<Msg>, Status> {
+        self.hit("greeter", "SayHello", "unary");
+        Ok(Response::new(Msg(b"r".to_vec())))
+    }
+    async fn say_hello_again(&self, _r: Request<Streaming<Msg>>) -> Result<Response<Msg>, Status> {
+        self.hit("greeter", "sayHelloAgain", "client_streaming");
+        Ok(Response::new(Msg(b"r".to_vec())))
+    }
+}
+#[tonic::async_trait]
+impl id3::http_echo_server::HttpEcho for Rec {
+    async fn ping(&self, _r: Request<Msg>) -> Result<Response<Msg>, Status> {
+        self.hit("HTTPEcho", "Ping", "unary");
+        Ok(Response::new(Msg(b"r".to_vec())))
+    }
+}
+#[tonic::async_trait]
+impl id4::http_echo_server::HttpEcho for Rec {
+    async fn ping(&self, _r: Request<Msg>) -> Result<Response<Msg>, Status> {
+        self.hit("pkg.HttpEcho", "Ping", "unary");
+        Ok(Response::new(Msg(b"r".to_vec())))
+    }
+    async fn only_here(&self, _r: Request<Msg>) -> Result<Response<Msg>, Status> {
+        self.hit("pkg.HttpEcho", "OnlyHere", "unary");
+        Ok(Response::new(Msg(b"r".to_vec())))
+    }
+}
+#[tonic::async_trait]
+impl id5::greeter_server::Greeter for Rec {
+    async fn say_hello(&self, _r: Request<Msg>) -> Result<Response<Msg>, Status> {
+        self.hit("Greeter", "SayHello", "unary");
+        Ok(Response::new(Msg(b"r".to_vec())))
+    }
+}
+
+/// the Rust-side spelling of the manual fixture (package, Service::name(), [Method::name()]) -
+/// tonic_build::manual: name() == identifier(), so FIXTURE[k].0 == "<package>.<name>"
+pub const FIXTURE_DESC: &[(&str, &str, &[&str])] = &[
+    ("pkg", "Svc", &["get", "list", "put", "chat"]),
+    ("pkg", "SvcX", &["get", "get_x", "ge"]),
+    ("", "Svc", &["get", "get_lower", "get_upper"]),
+    ("pkg.Svc", "Inner", &["get", "r#type"]),
+];
+/// .. and of the servers committed in /repo (generated by the prost path, emit_package(true))
+pub const COMMITTED_DESC: &[(&str, &str, &[&str])] = &[
+    ("grpc.health.v1", "Health", &["check", "watch"]),
+    ("grpc.reflection.v1", "ServerReflection", &["server_reflection_info"]),
+    ("grpc.reflection.v1alpha", "ServerReflection", &["server_reflection_info"]),
+];
